@@ -277,17 +277,40 @@ func (c *Check) Finish() {
 	b, _ := json.MarshalIndent(ev, "", " ")
 	if err := os.WriteFile(filepath.Join(Root, "evidence", c.ID+".json"), b, 0o644); err != nil {
 		fmt.Fprintln(os.Stderr, "harness: cannot write evidence:", err)
-		os.Exit(2)
+		exitNow(2)
 	}
 	fmt.Printf("%s tier=%s evaluations=%d states=%v transitions=%v distinct=%d exhaustive=%v violations=%d known=%d wall=%.1fs\n",
 		c.ID, c.Tier, c.Evaluations, cov["states"], cov["transitions"], len(c.distinct), c.Exhaustive, len(c.violations), len(knownLines), time.Since(c.start).Seconds())
-	os.Exit(exit)
+	exitNow(exit)
 }
 
 // Fatal reports a harness error (never a verdict) and exits 2.
 func Fatal(format string, a ...any) {
 	fmt.Fprintf(os.Stderr, "HARNESS-ERROR: "+format+"\n", a...)
-	os.Exit(2)
+	exitNow(2)
+}
+
+var cleanups []func()
+
+// OnExit registers f to run before the harness exits the process (Finish, Fatal, worker exit): deferred
+// calls in main do not run across os.Exit, so scratch directories are removed through this.
+func OnExit(f func()) { cleanups = append(cleanups, f) }
+
+// TempDir makes a scratch directory that is removed when the harness exits.
+func TempDir(prefix string) string {
+	d, err := os.MkdirTemp("", prefix)
+	if err != nil {
+		Fatal("cannot make a scratch directory: %v", err)
+	}
+	OnExit(func() { os.RemoveAll(d) })
+	return d
+}
+
+func exitNow(code int) {
+	for i := len(cleanups) - 1; i >= 0; i-- {
+		cleanups[i]()
+	}
+	os.Exit(code)
 }
 
 // ---------------------------------------------------------------------------
@@ -350,7 +373,7 @@ func WorkerMain() {
 	}
 	b, _ := json.Marshal(st)
 	os.Stdout.Write(b)
-	os.Exit(0)
+	exitNow(0)
 }
 
 // NoEarlyClock, set by a check before exploring, makes timers fire only at quiescence.
@@ -374,6 +397,14 @@ type BatchResult struct {
 // ExploreBatch explores many parameterisations of a registered scenario, one
 // worker process per parameterisation, Workers() at a time.
 func ExploreBatch(name string, params []string, bound int, budget time.Duration, delay bool) []BatchResult {
+	// one-off deeper sweeps: VERIF_DEEP_BOUND=<n> adds n to every deviation bound, VERIF_DEEP_BUDGET=<k>
+	// multiplies every per-scenario time budget (the registered commands never set these)
+	if n, err := strconv.Atoi(os.Getenv("VERIF_DEEP_BOUND")); err == nil && n > 0 {
+		bound += n
+	}
+	if k, err := strconv.Atoi(os.Getenv("VERIF_DEEP_BUDGET")); err == nil && k > 0 {
+		budget *= time.Duration(k)
+	}
 	out := make([]BatchResult, len(params))
 	sem := make(chan struct{}, Workers())
 	var wg sync.WaitGroup
